@@ -93,6 +93,13 @@ def run(prog):
         eq_txt = show(("call", eqs[0].callee, tuple(eqs[0].args))) if eqs else None
         if not any(show(strip(c)) == eq_txt and val != "0" for c, val, _, _ in te.facts_at(rms[0].bb)):
             errs.append("the removal is not conditional on the merge test")
+        # ... and on nothing else: every pair with equal subs must be merged
+        for c, val, _, _ in te.facts_at(rms[0].bb):
+            sc = show(strip(c))
+            if sc == eq_txt or sc.startswith("discr(next(") or (any(x == jmu for x in mir.subterms(strip(c))) and "len(" in sc):
+                continue
+            errs.append("elements with equal subs are merged only if additionally `%s` is %s: the remaining equal subs stay "
+                        "in the node, which is then not compressed" % (sc[:70], "false" if val == "0" else "true"))
     out.append(inst("CM", "%s:CM2:merge" % fn.npath, VIOLATION if errs else OK, fn, news[0].line if news else None,
                     "; ".join(errs) if errs else "node[i] := (prime_i ∨ prime_j, sub_i); node[j] removed, under the merge test"))
     # CM3: per inner iteration remove-and-stay or keep-and-advance
